@@ -108,6 +108,7 @@ type Contract struct {
 	Assumes  []*Clause
 	Modifies []string
 	HasMod   bool
+	After    map[int][]*Clause // proof hints: proved then assumed right after the N-th call (source order)
 	Loops    map[int]*LoopSpec
 	Pure     bool
 	File     string
@@ -469,7 +470,7 @@ func (p *parser) primary() *E {
 
 // ---------- contract files ----------
 
-var clauseKw = map[string]bool{"props": true, "arith": true, "requires": true, "ensures": true, "modifies": true,
+var clauseKw = map[string]bool{"after": true, "props": true, "arith": true, "requires": true, "ensures": true, "modifies": true,
 	"loop": true, "assume": true, "pure": true, "opt": true, "preserves": true}
 
 var reFuncHdr = regexp.MustCompile(`^(trusted\s+)?func\s+(\S.*)$`)
@@ -697,6 +698,21 @@ func (cs *Contracts) loadFile(file string) error {
 					cur.Modifies = append(cur.Modifies, m)
 				}
 			}
+		case "after":
+			// after call N: expr
+			m := regexp.MustCompile(`^call\s+(\d+)\s*:\s*(.*)$`).FindStringSubmatch(rest)
+			if m == nil {
+				return fail(fmt.Errorf("expected 'after call N: expr'"))
+			}
+			k, _ := strconv.Atoi(m[1])
+			c, err := mk("after", m[2], 0)
+			if err != nil {
+				return err
+			}
+			if cur.After == nil {
+				cur.After = map[int][]*Clause{}
+			}
+			cur.After[k] = append(cur.After[k], c)
 		case "loop":
 			// loop k: invariant e | decreases e | modifies ...
 			i := strings.Index(rest, ":")
